@@ -133,9 +133,21 @@ Ops == ProvideOps \cup WithdrawOps \cup SwapDirectOps \cup SwapHookOps \cup Dona
 
 Init == w = InitWorld /\ last = NoEv /\ steps = 0 /\ hist = <<>>
 
+\* exported behaviours start from a funded pool (a random walk over all shapes rarely funds it first)
+FirstOps == {op \in ProvideOps : op.caller = "lp1" /\ op.assets[1].amount >= 2 /\ op.assets[2].amount >= 2
+                                  /\ ~op.tol.some /\ ~op.receiver.some /\ op.funds = FundsFor({op.assets[1], op.assets[2]})}
+
+\* in export (simulation) mode the next operation is drawn class-first - a uniform draw over Ops would be
+\* dominated by the provision variants - and only that one successor is generated
+OpClasses == <<ProvideOps, WithdrawOps, SwapDirectOps, SwapHookOps, DonateOps, LpTransferOps, RogueOps, WithdrawOps, SwapDirectOps \cup SwapHookOps>>
+DrawOp ==
+    IF steps = 0 THEN RandomElement(FirstOps)
+    ELSE LET ne == {i \in DOMAIN OpClasses : OpClasses[i] # {}} IN
+         RandomElement(OpClasses[RandomElement(ne)])
+
 Step ==
     /\ steps < MAXSTEPS
-    /\ \E op \in Ops :
+    /\ \E op \in (IF EXPORT THEN {DrawOp} ELSE Ops) :
           LET r == Tx(w, op) IN
           /\ w' = r.w
           /\ last' = [op |-> op, res |-> r.res]
